@@ -127,6 +127,11 @@ def p_poison(x, marker=None):
     return x * 10
 
 
+def p_big(x, marker=None):
+    """A persistent target whose results are much bigger than one buffer."""
+    return b'r' * 100000
+
+
 def p_sysexit(x, marker=None):
     """A persistent target that leaves with something which is not an Exception on input 99."""
     if x == 99:
